@@ -273,6 +273,34 @@ def fma_probes(pty, level=1):
                     for d in depths:
                         if d > fb:
                             add(one_plus(d), bc, cc)
+    # two-bit products 2^m + 1 = A * B with both factors dense (e.g. 2^18 + 1 = 65 * 4033): the product's top bit is the round bit of the
+    # addend and its only other bit lies m places down - deeper than a single posit can hold and, for large m, shifted out of the working
+    # register during alignment; added and subtracted (the subtraction needs the borrow correction for the lost bits)
+    W_ = fb0 + 1
+    twobit = []
+    for mm in range(fb0 + 1, 2 * fb0 + 1):
+        Nn = (1 << mm) + 1
+        for A_ in range(3, 1 << W_, 2):
+            if Nn % A_ == 0 and (Nn // A_) < (1 << W_) and (Nn // A_) > 1:
+                twobit.append((mm, A_, Nn // A_))
+                break
+    tb_scales = scales if (level > 1 or n <= 16) else scales[::3]
+    for s in tb_scales:
+        fb = _frac_bits_at(p, s)
+        rpos = s - fb - 1
+        for mm, A_, B_ in twobit:
+            la, lb = A_.bit_length(), B_.bit_length()
+            a_ = _enc(p, 0, (A_ - (1 << (la - 1))) << (fb0 - (la - 1)), fb0) if la - 1 <= fb0 else None
+            eb = rpos - mm + la - 1
+            sb_ = eb + lb - 1
+            fbb = _frac_bits_at(p, sb_)
+            b_ = _enc(p, sb_, (B_ - (1 << (lb - 1))) << (fbb - (lb - 1)), fbb) if 0 <= lb - 1 <= fbb else None
+            if a_ is None or b_ is None:
+                continue
+            for F in ([0, 1] + ([(1 << fb) - 1] if fb > 1 else [])) if fb else [0]:
+                c_ = _enc(p, s, F, fb)
+                add(a_, b_, c_)                                   # c + (half ulp + far bit)
+                add((-a_) & m if a_ is not None else None, b_, c_)     # c - (half ulp + far bit): just below the lower midpoint
     # squares (1 + 2^-x)^2 = 1 + 2^(1-x) + 2^-2x: a product with exactly three set bits, the lowest one 2x places down (deeper than any
     # posit can hold).  Placed so that the top bit completes an all-ones addend to the next power of two (carry-out), the middle bit is the
     # round bit and the lowest bit is the only sticky bit; and the same without the carry.
@@ -376,4 +404,47 @@ def fma_sparse_probes(pty, per_m=6, max_tries=4096):
         if tr not in seen:
             seen.add(tr)
             uniq.append(tr)
+    return uniq
+
+
+def mul_sparse_probes(pty, per_case=6):
+    """operand pairs with *dense* significands whose exact product sits in an extreme rounding situation: A*B = X*2^(m+1) + R with the
+    round bit at position m and R in {2^m + 1 (a tie plus one far bit), 2^m - 1 (all ones just below the midpoint), 1 (a lone sticky bit),
+    2^(m+1) - 1 (all ones)}.  B is obtained from A by a modular inverse (both odd, full length), no search."""
+    p = pty.posit
+    n, es = p.n, p.es
+    msk = p.mask
+    fb0 = _frac_bits_at(p, 0)
+    W = fb0 + 1
+    lo_sig, hi_sig = 1 << fb0, (1 << W) - 1
+    maxs = (n - 2) << es
+    full_scales = [s for s in range(-maxs, maxs) if _frac_bits_at(p, s) == fb0]
+    out = []
+    for m in (W - 2, W - 1, W):
+        mod = 1 << (m + 1)
+        for R in ((1 << m) + 1, (1 << m) - 1, 1, mod - 1, (1 << m) + 3, (1 << (m - 1)) + 1):
+            found = 0
+            A = lo_sig + 1 + 2 * (R % 7)
+            step = (((hi_sig - lo_sig) // (per_case * 3)) | 1) + 1
+            while A <= hi_sig and found < per_case:
+                inv = pow(A, -1, mod)
+                B0 = (inv * R) % mod
+                j = max(0, (lo_sig - B0 + mod - 1) // mod)
+                B = B0 + j * mod
+                if lo_sig <= B <= hi_sig and (A * B) % mod == R:
+                    for (sa, sb) in ((0, 0), (full_scales[0], full_scales[-1]), (full_scales[-1], full_scales[-1])):
+                        if sa in full_scales and sb in full_scales:
+                            a = _enc(p, sa, A - lo_sig, fb0)
+                            b = _enc(p, sb, B - lo_sig, fb0)
+                            if a is not None and b is not None:
+                                out.append((a & msk, b & msk))
+                                out.append(((-a) & msk, b & msk))
+                    found += 1
+                A += step
+    seen = set()
+    uniq = []
+    for pr in out:
+        if pr not in seen:
+            seen.add(pr)
+            uniq.append(pr)
     return uniq
